@@ -43,6 +43,8 @@ SCOPE = {"quick": "700 datasets (n<=3, m<=2, exhaustive) x 3 (naming, scheme) + 
                      "sampled (n<=6, m<=5; stand-in configurations with return_at_most_one_ranking=False only for "
                      "n<=5); all pivot sequences for n<=4"}
 CHUNK = 4
+# every 6th case is run a second time with every algorithm object used before on related inputs (bounded/algs.py: warm)
+WARM_EVERY = {"quick": 6, "thorough": 6}
 # every 8th case is run a second time with its datasets reached through a history (vlib.t2run._with_histories)
 VIA_EVERY = {"quick": 8, "thorough": 8}
 TIMEOUT = 300
